@@ -1488,12 +1488,13 @@ class LuaFormatterWriter(LuaASTEchoWriter):
             spaces = re.sub(br'^ *--', b'  --', spaces)
 
         # If a comment is on its own line, indent it at the indent level.
+        # (PICO-8 also accepts // as a comment start.)
         spaces = re.sub(
-            br'\n *--',
-            b'\n' + b' ' * self._indent_mult * self._indent + b'--',
+            br'\n *(--|//)',
+            b'\n' + b' ' * self._indent_mult * self._indent + br'\1',
             spaces)
         if start_pos == 0:
-            spaces = re.sub(br'^ *--', b'--', spaces)
+            spaces = re.sub(br'^ *(--|//)', br'\1', spaces)
 
         # If next non-space is on its own line, indent it at the indent level.
         # (\Z, not $: $ also matches before a final newline, which would
